@@ -173,6 +173,48 @@ func probeCmd(args []string) error {
 		r["k1_balance_before"], r["k1_balance_after"] = before, w.balance("k1")
 		out["side_outputs_exceed_inputs_with_marked_flag"] = r
 	}
+	// 7. KF_CoinbaseRider: the coinbase transaction of a block skips ImmediateVerifyTx (verifyDAGTxs:
+	//    "if !tx.Autogen && !tx.Coinbase"), but its read / write set is applied by xmodel.DoTx: a block whose
+	//    award transaction also rewrites account A's rule (A: k2 and k3) to "kx alone"; nobody signed for A.
+	{
+		l, s := w.node.Ledger, w.node.State
+		acctBucket := "XCAccount"
+		a := w.name("A")
+		cur, err := s.CreateXMReader().Get(acctBucket, []byte(a))
+		if err != nil {
+			return err
+		}
+		w.seq++
+		aw, _ := txn.GenerateAwardTx(w.miner.Address, "0", []byte("award-rider"))
+		aw.TxInputsExt = []*protos.TxInputExt{{Bucket: acctBucket, Key: []byte(a), RefTxid: cur.RefTxid, RefOffset: cur.RefOffset}}
+		aw.TxOutputsExt = []*protos.TxOutputExt{{Bucket: acctBucket, Key: []byte(a), Value: thresholdACL(map[string]float64{w.key["kx"].Address: 1}, 1)}}
+		aw.Txid, _ = txhash.MakeTransactionID(aw)
+		blk, err := l.FormatMinerBlock([]*pb.Transaction{aw}, []byte(w.miner.Address), w.miner.Priv, w.seq, 0, 0, s.GetLatestBlockid(), 0, s.GetTotal(), nil, nil, l.GetMeta().TrunkHeight+1)
+		if err != nil {
+			return err
+		}
+		r := map[string]interface{}{}
+		before, _ := w.node.Acl.GetAccountACL(a)
+		r["rule_of_A_before"] = before.GetAksWeight()
+		if cs := l.ConfirmBlock(blk, false); !cs.Succ {
+			r["ConfirmBlock_err"] = fmt.Sprint(cs.Error)
+		} else {
+			r["PlayAndRepost_err"] = fmt.Sprint(s.PlayAndRepost(blk.Blockid, false, false))
+		}
+		after, _ := w.node.Acl.GetAccountACL(a)
+		r["rule_of_A_after"] = after.GetAksWeight()
+		// the outsider now spends A's funds on its own signature
+		t := &aTx{Ver: 3, Init: "kx", Isigs: []aSig{valid("kx")}, Auth: [][]string{{"A", "kx"}}, Asigs: []aSig{valid("kx")}, Id: "ok", Ins: []aIn{{Own: "A"}}, Ctr: "none"}
+		tx, err := w.concretise(t, "probe-rider-spend")
+		if err != nil {
+			return err
+		}
+		bal := w.balance("A")
+		sub := w.submit(tx)
+		sub["A_balance_before"], sub["A_balance_after"] = bal, w.balance("A")
+		r["outsider_spends_A"] = sub
+		out["coinbase_rider_rewrites_account_rule"] = r
+	}
 	_ = fx.BCName
 	b, _ := json.Marshal(out)
 	fmt.Println(string(b))
